@@ -109,6 +109,15 @@ def build(df, case, emb):
     m = case["mesh"]
     names = lat.names_for(m)
     flip = lat.flip_for(m)
+    if emb.name == "unit" and case["mseed"] % 2 == 0:
+        # integer-cornered variant (lattice coordinates are the coordinates): exercises the int64 corner paths
+        nd = len(m["n"])
+        hi = [m["lo"][d] + m["c"][d] * m["n"][d] for d in range(nd)]
+        p1 = [int(hi[d] if flip[d] else m["lo"][d]) for d in range(nd)]
+        p2 = [int(m["lo"][d] if flip[d] else hi[d]) for d in range(nd)]
+        subs = {s["name"]: df.Region(p1=[int(v) for v in s["box"]["lo"]], p2=[int(v) for v in s["box"]["hi"]])
+                for s in case.get("subs", [])}
+        return df.Mesh(region=df.Region(p1=p1, p2=p2, dims=names), n=tuple(m["n"]), subregions=subs or None), names
     subs = {s["name"]: lat.box_region(df, s["box"], emb) for s in case.get("subs", [])}
     mesh = lat.mesh_of(df, m, emb, dims=names, flip=flip, subregions=subs or None)
     return mesh, names
@@ -256,6 +265,8 @@ def check_case(df, case, emb, part, mesh_level=True, env=None):
                 ok, err = True, None
             except Exception as ex:
                 ok, res, err = False, None, ex
+            if op == "getitem_name" and not env["subs_used"]:
+                continue  # the library refused the layout on this embedding (C14 reports that)
             if not exp["ok"]:
                 if ok:
                     part.violation(key("C07_OutsideRejected", f"{what}-accepts-outside"),
@@ -515,12 +526,15 @@ _HDR = re.compile(r"^State \d+:\s*$", re.M)
 
 
 def embs_for_case(kind, embs, k, tier):
-    """all embeddings for light actions; a rotating dyadic + two real ones for the heavy tables (quick tier)"""
-    if tier != "quick" or kind in ("sel_centre", "getitem_name", "getitem_diag"):
+    """all embeddings for the light actions; for the big tables a rotating subset
+    (quick: 1 dyadic + 1 real, thorough: 2 dyadic + 3 real) so that every embedding is used across the cases"""
+    if kind in ("sel_centre", "getitem_name", "getitem_diag"):
         return list(range(len(embs)))
     dy = [i for i, e in enumerate(embs) if e.dyadic]
     re_ = [i for i, e in enumerate(embs) if not e.dyadic]
-    return [dy[k % len(dy)], re_[k % len(re_)]]
+    if tier == "quick":
+        return [dy[k % len(dy)], re_[k % len(re_)]]
+    return [dy[k % len(dy)], dy[(k + 1) % len(dy)], re_[k % len(re_)], re_[(k + 4) % len(re_)], re_[(k + 7) % len(re_)]]
 
 
 # ------------------------------------------------------------------ channel T
@@ -681,15 +695,9 @@ def gen_trace(df, rnd, tid, embs):
 
 
 def t_key(clause, e, t):
-    cond = "any"
-    m = t["mesh"]
-    nd = len(m["n"])
-    if e["k"] == "getitem_box" and not e["ok"]:
-        if any(e["box"]["hi"][d] == m["lo"][d] + m["c"][d] * m["n"][d] for d in range(nd)):
-            cond = "raises-upper-corner-on-region-boundary"
-    if e["k"] == "sel_range" and not e["ok"] and t["subs"]:
-        cond = "raises-with-subregions"
-    return f"trace:{clause}/{e['k']}/{cond}/{t['cls']}"
+    """violation key of a trace verdict: the spec names clause[:condition]; the harness adds operation and scale class"""
+    cl, _, cond = clause.partition(":")
+    return f"trace:{cl}/{e['k']}/{cond or 'any'}/{t['cls']}"
 
 
 def run_traces(ctx, df, ntraces, embs):
